@@ -39,6 +39,8 @@ class Interp:
         self.fi = fi
         self.module = module          # for calls of module-level helper functions (interpreted in place)
         self.active = []
+        self.inline_writers = []      # little-endian writes written in place
+        self.tables = {}              # local name -> literal list of rows
         self.consts = consts          # module-level integer names (snarkjsp)
         self.writers = {}             # name -> (fileexpr, valparam, lenparam, little_endian_ok)
         self.helpers = {}             # name -> FunctionDef of helper that calls writers (writefac)
@@ -129,6 +131,10 @@ class Interp:
         if isinstance(s, ast.Assign) and isinstance(s.targets[0], ast.Name) and isinstance(s.value, ast.Call) \
                 and self._writer_factory(s.targets[0].id, s.value):
             return
+        if isinstance(s, ast.Assign) and isinstance(s.targets[0], ast.Name) and isinstance(s.value, (ast.List, ast.Tuple)) \
+                and s.value.elts and all(isinstance(e, (ast.Tuple, ast.List, ast.Constant)) for e in s.value.elts):
+            self.tables[s.targets[0].id] = s.value          # a literal table of (value, width) rows
+            return
         if isinstance(s, ast.Assign) and isinstance(s.targets[0], ast.Name):
             p = self.poly(s.value)
             if p is not None:
@@ -146,6 +152,29 @@ class Interp:
             elif isinstance(s.iter, (ast.Tuple, ast.List)) and len(s.iter.elts) <= 8 and all(
                     isinstance(e, ast.Constant) and isinstance(e.value, int) for e in s.iter.elts):
                 unroll = [e.value for e in s.iter.elts]
+        if unroll is None and isinstance(s, ast.For):
+            # table-driven writes:  for (val, n) in [(2, 4), (1, 4), ...]: w(val, n)   (literal, or a local bound once to one)
+            it = s.iter
+            if isinstance(it, ast.Name) and it.id in self.tables:
+                it = self.tables[it.id]
+            tg = [s.target] if isinstance(s.target, ast.Name) else (list(s.target.elts) if isinstance(s.target, (ast.Tuple, ast.List)) else None)
+            if isinstance(it, (ast.Tuple, ast.List)) and 1 <= len(it.elts) <= 32 and tg and all(isinstance(t, ast.Name) for t in tg):
+                rows = []
+                for e in it.elts:
+                    parts = list(e.elts) if isinstance(e, (ast.Tuple, ast.List)) else [e]
+                    if len(parts) != len(tg):
+                        rows = None
+                        break
+                    rows.append(parts)
+                if rows:
+                    import copy
+                    for parts in rows:
+                        alias = {t.id: p_ for t, p_ in zip(tg, parts)}
+                        for b in s.body:
+                            b2 = _SubstNames(alias).visit(clone(b))
+                            ast.fix_missing_locations(b2)
+                            self.stmt(b2, sink, subst)
+                    return
         if unroll is not None:
             # a loop over a small literal range / tuple is unrolled (e.g. `for j in range(3): ... c[j].lc ...`)
             import copy
@@ -164,7 +193,16 @@ class Interp:
         if isinstance(s, ast.For):
             body = []
             inner_sub = dict(subst or {})
+            alias = {}
             for b in s.body:
+                # loop-local names holding an expression (v2 = val % p; w(v2, 32)) are substituted
+                if isinstance(b, ast.Assign) and len(b.targets) == 1 and isinstance(b.targets[0], ast.Name) \
+                        and not isinstance(b.value, ast.Call):
+                    alias[b.targets[0].id] = _SubstNames(alias).visit(clone(b.value)) if alias else b.value
+                    continue
+                if alias:
+                    b = _SubstNames(alias).visit(clone(b))
+                    ast.fix_missing_locations(b)
                 self.stmt(b, body, inner_sub)
             if not body:
                 return
@@ -223,6 +261,13 @@ class Interp:
         if isinstance(c.func, ast.Attribute) and c.func.attr == "write":
             fvar = norm(c.func.value)
             a = c.args[0] if c.args else None
+            le = self._inline_le(a)
+            if le is not None:
+                # F.write(bytes([(V >> (i*8)) & 255 for i in range(N)])) written in place (an inlined writer helper)
+                valnode, widthnode = le
+                self.inline_writers.append((c, valnode, widthnode))
+                self.emit(fvar, Ev(self.poly(widthnode), valnode, c), sink)
+                return
             if isinstance(a, ast.Call) and norm(a.func) == "bytes" and a.args and isinstance(a.args[0], ast.Constant) \
                     and isinstance(a.args[0].value, str):
                 self.emit(fvar, Ev(P.const(len(a.args[0].value)), a.args[0], c), sink)
@@ -251,6 +296,28 @@ class Interp:
             self.active.pop()
             return
         self.problems.append((c, "call not interpretable: %s" % norm(c)[:60]))
+
+    def _inline_le(self, a):
+        """(value node, width node) of  bytes([(V >> (i*8)) & 255 for i in range(N)])  or None"""
+        if not (isinstance(a, ast.Call) and norm(a.func) == "bytes" and a.args and isinstance(a.args[0], ast.ListComp)):
+            return None
+        comp = a.args[0]
+        if len(comp.generators) != 1 or comp.generators[0].ifs:
+            return None
+        g = comp.generators[0]
+        if not (isinstance(g.iter, ast.Call) and norm(g.iter.func) == "range" and len(g.iter.args) == 1 and isinstance(g.target, ast.Name)):
+            return None
+        i = g.target.id
+        e = comp.elt
+        # (V >> (i*8)) & 255   |   (V >> (i*8)) % 256
+        if isinstance(e, ast.BinOp) and ((isinstance(e.op, ast.BitAnd) and norm(e.right) in ("255", "0xff")) or
+                                         (isinstance(e.op, ast.Mod) and norm(e.right) == "256")):
+            sh = e.left
+            if isinstance(sh, ast.BinOp) and isinstance(sh.op, ast.RShift) and norm(sh.right).replace(" ", "") in (
+                    "%s*8" % i, "8*%s" % i, "%s<<3" % i):
+                if not any(isinstance(x, ast.Name) and x.id == i for x in ast.walk(sh.left)):
+                    return sh.left, g.iter.args[0]
+        return None
 
     def _writer_factory(self, target, call):
         """w = make_writer(fileobj): a module-level function that defines a little-endian writer over its parameter and
@@ -375,7 +442,10 @@ def check(repo, rep, tier):
         else:
             r4.violation(fi.loc(fn), fi.fq + "." + name, norm(fn.body[0])[:160],
                          "fixed-width writer is not little-endian byte extraction over range(len)", "writer/%s" % name)
-    if len(it.writers) < 2:
+    if it.inline_writers:
+        r4.ok(fi.loc(it.inline_writers[0][0]), fi.fq, "%d little-endian writes in place: %s" % (
+            len(it.inline_writers), norm(it.inline_writers[0][0])[:100]), "byte i = (val >> 8i) & 255, i ascending: little-endian")
+    if len(it.writers) + (1 if it.inline_writers else 0) < 2 and not (it.inline_writers and {"witness.wtns", "circuit.r1cs"} <= set(it.streams)):
         raise AnalysisError("fixed-width writer helpers not recognised in prove()")
     for fname in ("witness.wtns", "circuit.r1cs"):
         if fname not in it.closed:
